@@ -163,6 +163,35 @@ def run_dag(case):
                                 f'get_component(K{q.idx}) = {one!r}',
                                 exact_present=any(type(o) is q for o in objs),
                                 **feats)
+        # replace each component of entity 1 by a fresh one of the same
+        # type (add_component and create_entity), then ask again
+        for how in ('add', 'create'):
+            w, objs, other = fresh()
+            for k, o in enumerate(list(objs)):
+                new = type(o)()
+                if how == 'add':
+                    w.add_component(1, new)
+                else:
+                    w.create_entity(new, entity_id=1)
+                objs[k] = new
+                calls += 1
+            if objs:
+                hits['replacement'] = 1
+            for q in classes:
+                got = w.get(q)
+                want = ([(1, o) for o in objs if isinstance(o, q)]
+                        + [(2, o) for o in other if isinstance(o, q)])
+                if (sorted((e, id(o)) for e, o in got)
+                        != sorted((e, id(o)) for e, o in want)):
+                    raise Violation(
+                        'get_each_match_once',
+                        f'classes {spec}: after replacing every component of '
+                        f'entity 1 through {how}, get(K{q.idx}) returned '
+                        f'{sorted((e, type(o).__name__) for e, o in got)}, '
+                        f'attached: '
+                        f'{sorted((e, type(o).__name__) for e, o in want)}',
+                        duplicated=False, missing=True, foreign=False,
+                        after_replacement=True, **feats)
         for q in classes:
             w, objs, other = fresh()
             removed = w.remove_component(1, q)
@@ -248,7 +277,8 @@ def run(tier, rep):
         'every query is also issued after each class definition, before the '
         'later subclasses exist (stale memoisation of the subclass walk)',
     ]
-    rep.require_hits(multiple_inheritance=1, diamond=1, mro_rejected=1)
+    rep.require_hits(multiple_inheritance=1, diamond=1, mro_rejected=1,
+                     replacement=1)
     kernel.enumerate_cases(run_dag, cases(tier), rep, 'class-dags', chunk=8,
                            params=dict(all_base_orders_up_to=4 if tier == 'quick' else 5,
                                        canonical_base_order_up_to=5 if tier == 'quick' else 6))
